@@ -30,6 +30,9 @@ pub fn run(_args: &[String]) -> i32 {
         "2024/01/10 a\n    A    5 X\n    B   -5 X\n\n2024/01/20 b\n    A    -5 X\n    C    5 X\n\n2024/01/20 c\n    A    3 Y\n    B\n\n2024/02/01 d\n    C    -5 X\n    B    5 X\n\n",
         "2024/01/20 b\n    A    -5 X\n    C    5 X\n\n2024/02/01 d\n    C    -5 X\n    B    5 X\n\n2024/01/10 a\n    A    5 X\n    B   -5 X\n\n2024/03/01 e\n    A    7 X\n    B\n\n2024/01/20 c\n    A    3 Y\n    B\n\n",
         "commodity X\n    format 1,000.00 X\n\n2024/02/01 d\n    C    -5.005 X\n    B\n\n2024/01/10 a\n    A    5.005 X\n    B   -5.005 X\n\n2024/01/20 b\n    A    -5.005 X\n    C\n\n",
+        // assignments (`= X` without an amount, incl. `= 0 X` and bare `= 0`) and deduced postings: what is booked into the
+        // running balance must be what the register lists
+        "2024/01/10 open\n    W    100 X\n    W    20 Y\n    E\n\n2024/01/15 count\n    W    = 0 X\n    E\n\n2024/01/20 refill\n    W    30 X\n    E\n\n2024/02/01 set\n    W    = 7 Y\n    V    = 5 X\n    E\n\n2024/02/05 clear\n    V    = 0\n    E\n\n",
     ];
     let mut bad: Vec<(String, String)> = Vec::new();
     let mut evaluated = 0u64;
